@@ -129,7 +129,7 @@ Definition zeroNode (s : state) (n : nid) : res state :=
              <| setRemoved := if bool_decide (n ∈ setDuring s) then setRemoved s ++ [n] else setRemoved s |>
              <| setDuring := rm n (setDuring s) |> in
   Ok (upd s n (fun x => x <| setAt := 0 |> <| changedAt := 0 |> <| recomputedAt := 0 |>
-                          <| valid := true |> <| parents := [] |> <| children := [] |>
+                          <| parents := [] |> <| children := [] |>
                           <| observers := [] |> <| height := unset |> <| hAdj := unset |>)).
 
 Definition removeNode (s : state) (n : nid) : res state :=
